@@ -41,6 +41,14 @@ CHECKS['C12'] = dict(cat='other',
     tech='CrossHair/z3: (a) real assist() on a symbolic line left of the cursor (all strings up to the bound, all of Unicode) vs longest-identifier-suffix reference; (b,c) solver-enumerated cursor positions through real assist() vs the unmarked analysis',
     text='(a) is genuinely symbolic: the text left of the cursor is a solver variable and the whole of assist() runs on it; confirmed = no string of the bounded length yields a prefix other than the identifier characters left of the cursor. (b),(c) are solver-enumerated over a program family: every offset inside/at the end of every name read, attribute and import name gives the exact prefix, sorted duplicate-free marker-free proposals, equal to what the analysis of the unmarked source makes visible.',
     note='(a) Source replaced by a harness object (symbolic line, empty tree), project stubbed; (b,c) each path is one concrete run; real-file corpus outside.', ref='3/C12')
+CHECKS['C08'] = dict(cat='other',
+    tech='CrossHair/z3 solver-enumerated (program, typing-state mutation, cursor) over adversarial and family programs through the real lint/assist/location; oracle real compile()',
+    text='Solver-enumerated (E) only: each path is one concrete (text, cursor). Within the stated finite domain every case is covered: lint returns a list with exactly one E01 carrying CPython message/position iff compile() fails; assist and location return well-formed results and raise only SyntaxError and only when the cursor-marked text does not compile; RecursionError counts as a violation.',
+    note='No symbolic variable survives the parser, so this is no stronger than exhausting the finite domain (about 100 programs x 5 mutations x all cursors in the first 9 lines/40 columns); stdlib/real-file corpus outside the technique; non-termination only observable as timeout.', ref='3/C08')
+CHECKS['C11'] = dict(cat='other',
+    tech='CrossHair/z3: def/class header lines built from a symbolic identifier and spacing through the real find_def_loc/FuncScope/ClassScope (S); import statements and whole programs solver-enumerated (E)',
+    text='(S) the identifier in a def / async def / class header is a solver variable (letters that collide with the header keywords), the reported position must be where the identifier was put; (E) nine import forms over colliding identifiers, and every binding of ~60 programs: text at the reported position is the identifier, lint/location/all_names agree.',
+    note='Source.lines pre-filled from symbolic pieces, template AST node; symbolic-container transform; ASCII; real-file corpus outside.', ref='3/C11')
 NA = {}
 
 def main():
